@@ -145,6 +145,12 @@ static void run_case(cs::Src& s, cs::Ctx& ctx) {
       return (size_t)is.tellg();
     }, "std::istream", n, nullptr);
   }
+  // ---- std::istream whose buffer refills a few bytes at a time
+  {
+    lib::ChunkedBuf buf(stream, 1 + (size_t)s.below(5));
+    std::istream is(&buf);
+    drive(ctx, msgpack, stream, docs, is, [&]() { return buf.consumed(); }, "std::istream (chunked streambuf)", n, nullptr);
+  }
 #if ARDUINOJSON_ENABLE_ARDUINO_STREAM
   {
     MyStream st(stream);
